@@ -151,5 +151,5 @@ pub fn run(ctx: &Ctx) {
     ctx.rule("successful fit_with_statistics results (same three classes as C13; degrees of freedom 1..30 on purpose, weighted and unweighted, f32/f64) x 40 probabilities in (0,1) including 1e-6 and 1-1e-6: length N, every entry finite and >= 0, non-decreasing in p; where the normal matrix is numerically positive definite the squared radius is compared with t_oracle((1+p)/2; N-M-P)^2 · j_i^T Cov j_i using the unweighted oracle Jacobian row and the library's own covariance; p in {0,1,-0.1,1.5,NaN,+-inf} must panic. distinct = problem hash");
     ctx.assume("the oracle's Student-t quantile is the harness's own (incomplete beta + bisection, self-tested against a committed scipy table); relative tolerance 4e-4 absorbs the library's third-party quantile approximation");
     let t = ctx.tier;
-    ctx.run_cases("fits", t.pick(8000, 60000), t.pick(20.0, 200.0), |r, c, o| if c % 4 == 0 { case_t::<f32>(r, c, o) } else { case_t::<f64>(r, c, o) });
+    ctx.run_cases("fits", t.pick(8000, 240000), t.pick(20.0, 900.0), |r, c, o| if c % 4 == 0 { case_t::<f32>(r, c, o) } else { case_t::<f64>(r, c, o) });
 }
